@@ -19,6 +19,7 @@ import (
 	"strings"
 	"sync"
 	"testing"
+	"time"
 
 	"github.com/folbricht/desync"
 	"github.com/klauspost/compress/zstd"
@@ -1013,9 +1014,11 @@ var spec = &hx.Spec[Case]{
 		"local:prune:unlink-fails", "local:prune:unlink-fails:delivered", "local:prune:unlink-fails:delivered:error-returned",
 		"local:verify-repair:unlink-fails", "local:verify-repair:unlink-fails:delivered", "local:verify:unlink-fails",
 	},
-	Gen:     genCase,
-	Run:     run,
-	Journal: true, // Verify's workers are goroutines: a panic there kills the process
+	Gen: genCase,
+	Run: run,
+	// a case that never returns is a verdict (confirmed by a replay in a fresh process), not a timeout of the run
+	Watchdog: hx.Pick(180*time.Second, 300*time.Second),
+	Journal:  true, // Verify's workers are goroutines: a panic there kills the process
 }
 
 func TestMain(m *testing.M) {
